@@ -143,6 +143,18 @@ def to_tfrecord(saved_data_description: list[Attribute],
             raise ValueError(f"Wrong shape of {attribute.name}, expected: "
                              f"{attribute.shape}, got: {value.shape}.")
 
+        # A value of a wrong kind (e.g., a float or a string for an integer
+        # attribute) would be saved but the whole shard could no longer be
+        # parsed.
+        if (attribute.dtype in ["int8", "uint8", "int32", "int64"] and
+                value.dtype.kind not in "iub"):
+            raise ValueError(f"Wrong dtype of {attribute.name}, expected an "
+                             f"integer type, got: {value.dtype}.")
+        if (attribute.dtype in ["float32", "float64"] and
+                value.dtype.kind not in "iubf"):
+            raise ValueError(f"Wrong dtype of {attribute.name}, expected a "
+                             f"numeric type, got: {value.dtype}.")
+
         # Set feature value
         if attribute.dtype in ["int8", "uint8", "int32", "int64"]:
             feature[attribute.name] = int64_feature(values[attribute.name])
